@@ -113,6 +113,7 @@ def check_cells(model: FsmModel, rep, rule_eff='C04.T3', rule_next='C04.T4', onl
         bad_eff = []
         bad_next = []
         n_ret = 0
+        held_ = []
         for o in outs:
             if o.kind != 'return':
                 continue
@@ -130,6 +131,12 @@ def check_cells(model: FsmModel, rep, rule_eff='C04.T3', rule_next='C04.T4', onl
                 if best is None or len(d) + len(nd) < len(best[0]) + len(best[1]):
                     best = (d, nd, a)
             d, nd, a = best
+            if o.exc_path and d and all(x_.startswith('sends nothing') for x_ in d) and not nd \
+                    and any(cn_ == 'exc:OSError' for cn_ in o.conds) and not any(cn_.startswith('exc:') and cn_ != 'exc:OSError' for cn_ in o.conds):
+                # the prescribed transmission was attempted and failed (the handler around sendall() was entered): on a broken
+                # transport nothing can be sent; the sibling path on which the send succeeds is judged on its own
+                held_.append((o, d, a))
+                continue
             ctx = ' [role %s]' % o.role if any(x['when'] for x in alts) else ''
             if o.conds:
                 ctx += ' [path %s]' % ' '.join(o.conds)
@@ -137,6 +144,9 @@ def check_cells(model: FsmModel, rep, rule_eff='C04.T3', rule_next='C04.T4', onl
                 bad_eff.append('%s(): %s%s -- %s requires: %s' % (meth, '; '.join(d), ctx, action_id, describe_alt(a)))
             if nd:
                 bad_next.append('%s(): %s%s (%s)' % (meth, '; '.join(nd), ctx, action_id))
+        if held_ and not any(not o_.exc_path for o_, _s in cell_res):
+            for o_, d_, a_ in held_:
+                bad_eff.append('%s(): %s -- %s requires: %s' % (meth, '; '.join(d_), action_id, describe_alt(a_)))
         if n_ret == 0:
             bad_eff.append('%s(): no path returns normally in this cell (primitive %s)' % (meth, sorted(prim)))
         # a cell whose action transmits nothing and connects nothing has no transport operation that may fail: whatever the
